@@ -63,7 +63,7 @@ CHECKS = {
             "version-less, name not found) and every method once more; an unrelated decoy object "
             "must stay untouched: zero write attempts, failure value, no "
             "exception, and a logged first-error-wins latch are checked on every transition; on "
-            "the healthy object a port exception (SerialException or plain OSError), a device "
+            "the healthy object a port exception (SerialException, SerialTimeoutException, PortNotOpenError, OSError, RuntimeError), a device "
             "error reply, an unexpected reply or a timeout during a non-exempt request must be "
             "latched (and an exception must not escape); ten representative requests are explored "
             "with two deviations in the quick tier as well.",
